@@ -19,7 +19,7 @@ func TestC10NeverWedges(t *testing.T) {
 		cfg := baseConfig()
 		cfg.ReconnectWaitMin = 2 * time.Millisecond
 		cfg.ReconnectWaitMax = 16 * time.Millisecond
-		h := newH(rt, "C10", sim.Options{Config: cfg})
+		h := newH(rt, "C10", asVolatileSession(rt, sim.Options{Config: cfg}))
 		nontrivial := false
 		defer func() { h.finish(nontrivial) }()
 
